@@ -27,8 +27,8 @@ RULE = ("one case = library x profile x options x seed x path x sampler; non-tri
 
 
 def plan(ctx):
-    n = 900 if ctx.thorough else 230
-    m = 700 if ctx.thorough else 200
+    n = 3500 if ctx.thorough else 230
+    m = 2500 if ctx.thorough else 200
     return [("rs", i) for i in range(n)] + [("it", i) for i in range(m)]
 
 
